@@ -51,7 +51,7 @@ def run(prog, rep, tier, cfg):
     X.callers('K5', 'State::add_pre_commit_deposit', callee_is('state::State::add_pre_commit_deposit'),
               ['Actor::pre_commit_sector_batch_inner', 'activate_new_sector_infos', 'state::State::cleanup_expired_pre_commits', 'Actor::prove_commit_sectors3'], required=[], crates=[CR])
     CE = X.fn('state::State::cleanup_expired_pre_commits', CR)
-    subs = [c for c in CE.calls if (c.defp or '').endswith('SubAssign::sub_assign') and has_atom(prog.slicer.operand(CE, c.args[0]), 'F:State.pre_commit_deposits')]
+    subs = [c for c in CE.calls if (c.defp or '').endswith('SubAssign::sub_assign') and X.updates_field(c, 'State', 'pre_commit_deposits')]
     rep.need('K10', 'cleanup_expired_pre_commits:decrease-site', len(subs) == 1, 'one `pre_commit_deposits -= deposit_to_burn` expected, found %d' % len(subs), X.loc(CE))
     X.accumulates('K10', 'cleanup_expired_pre_commits:sums-expired-deposits', CE, ['F:SectorPreCommitOnChainInfo.pre_commit_deposit'], 'deposit_to_burn += deposit of each expired pre-commit')
     for c in subs:
